@@ -36,7 +36,9 @@ REQUIRED = {"v1.meaning": {"quick": 3000, "thorough": 50000}, "v1.autodetect_mea
             "v2.autodetect_meaning": {"quick": 2000, "thorough": 50000}, "mixed.rejected": {"quick": 300, "thorough": 5000},
             "history.rejected_again": {"quick": 300, "thorough": 5000},
             "history.config_after_other_protocol": {"quick": 200, "thorough": 5000},
-            "v1.config_file_meaning": {"quick": 80, "thorough": 2000}}
+            "v1.config_file_meaning": {"quick": 80, "thorough": 2000}, "v1.config_kwarg_meaning": {"quick": 200, "thorough": 4000}}
+REQUIRED_SEEN = {"group_shape": ["same_tag_with_both_polarities"], "tag_name_class": ["contains_operator_word", "contains_negation_character"],
+                 "config_kwarg_form": ["string:1_groups", "string:2_groups", "list:1_groups", "list:2_groups"]}
 EXHAUSTIVE = True
 EXHAUSTIVE_SCOPE = "all CNFs with <=2 groups x <=3 alternatives over 3 tags; single-group CNFs with every decoration combination"
 NSHARDS = {"quick": 8, "thorough": 16}
@@ -95,16 +97,21 @@ def render(groups, decor):
 
 
 RENAME = {"a": "android", "b": "order", "c": "notify", "d": "sandbox"}      # names that CONTAIN the v2 operator words
+RENAME_PUNCT = {"a": "rev~1", "b": "x-y", "c": "c~", "d": "d-~e"}           # names that CONTAIN (not: start with) the negation characters
 _REN = re.compile(r"(?<![A-Za-z])([abcd])(?![A-Za-z])")
 
 
-def renamed(text):
-    return _REN.sub(lambda m: RENAME[m.group(1)], text)
+def renamed(text, table=None):
+    table = table or RENAME
+    return _REN.sub(lambda m: table[m.group(1)], text)
 
 
 def check_cnf(lab, mon, groups, args, sample=False, rename=False):
+    table = rename if isinstance(rename, dict) else RENAME
     if rename:
-        args = [renamed(a) for a in args]
+        _renamed = renamed
+        renamed_ = lambda t: _renamed(t, table)
+        args = [renamed_(a) for a in args]
     ast = T.cnf_to_ast(groups)
     want = T.truth_table(ast, SUBSETS)
     nlits = sum(len(g) for g in groups)
@@ -122,11 +129,11 @@ def check_cnf(lab, mon, groups, args, sample=False, rename=False):
         for proto, mname in ((lab.P.V1, "v1.meaning"), (lab.P.AUTO_DETECT, "v1.autodetect_meaning")):
             case = {"kind": "cnf", "groups": groups, "text": text, "protocol": proto.name}
             if rename:
-                case["tag_names"] = RENAME
+                case["tag_names"] = table
             mon.case(case, nontrivial)
             try:
                 e = lab.make(text, proto)
-                got = T.truth_table_of((lambda tags: e.check([renamed(t) for t in tags])) if rename else e.check, SUBSETS)
+                got = T.truth_table_of((lambda tags: e.check([renamed_(t) for t in tags])) if rename else e.check, SUBSETS)
                 mon.check(mname, got == want, lambda: dict(case=case, want=want, got=got, parsed=repr(e)))
                 mon.seen("autodetect_class" if proto is lab.P.AUTO_DETECT else "v1_class", type(e).__name__)
             except Exception as ex:
@@ -254,6 +261,36 @@ def config_history(lab, mon, rng, gv):
         else:
             lab.P.use(saved)
 
+def config_kwarg_tags(lab, mon, rng, gv):
+    """Configuration(args, tags=...) -- the programmatic entry point: one string with blank-separated groups or a list."""
+    from behave.configuration import Configuration
+    groups = [rng.choice(gv) for _ in range(rng.choice([1, 2, 2, 3]))]
+    args = render(groups, lambda gi, ai: {"neg_char": rng.choice("-~"), "at": rng.random() < 0.6})
+    form = rng.choice(["string", "list"])
+    value = " ".join(args) if form == "string" else list(args)
+    want = T.truth_table(T.cnf_to_ast(groups), SUBSETS)
+    saved = getattr(lab.P, "_current", None)
+    for proto in (lab.P.V1, lab.P.AUTO_DETECT):
+        case = {"kind": "config-kwarg-tags", "tags": value, "protocol": proto.name}
+        mon.case(case, True)
+        mon.seen("config_kwarg_form", "%s:%d_groups" % (form, min(len(groups), 2)))
+        try:
+            c = Configuration([], load_config=False, tags=value, tag_expression_protocol=proto)
+            got = T.truth_table_of(c.tag_expression.check, SUBSETS)
+            mon.check("v1.config_kwarg_meaning", got == want, lambda: dict(case=case, want=want, got=got, parsed=repr(c.tag_expression), tags=c.tags))
+        except Exception as ex:
+            mon.check("v1.config_kwarg_meaning", False, dict(case=case, error=repr(ex)))
+        finally:
+            if saved is None:
+                if "_current" in lab.P.__dict__:
+                    try:
+                        type.__delattr__(lab.P, "_current")
+                    except Exception:
+                        lab.P.use(lab.P.DEFAULT)
+            else:
+                lab.P.use(saved)
+
+
 def config_file_tags(lab, mon, rng, gv):
     """An old-style expression written into a configuration file (tags = @a,-@b on one line, further groups on further lines)
     means what it means on the command line."""
@@ -340,6 +377,24 @@ def run(spec, mon):
             groups = [rng.choice(gv4) for _ in range(rng.choice([1, 2]))]
             check_cnf(lab, mon, groups, render(groups, decor_random(rng)), rename=True)
             mon.seen("tag_name_class", "contains_operator_word")
+        if rng.random() < 0.4:
+            groups = [rng.choice(gv4) for _ in range(rng.choice([1, 2, 2]))]
+            dec = decor_random(rng)
+            check_cnf(lab, mon, groups, render(groups, lambda gi, ai: dict(dec(gi, ai), limit=None)), rename=RENAME_PUNCT)
+            mon.seen("tag_name_class", "contains_negation_character")
+        if rng.random() < 0.5:
+            # literals drawn WITH replacement: the same tag twice in one or-group, also with opposite polarity (@a,-@a is
+            # always true), and the same tag in several groups
+            groups = []
+            for _ in range(rng.choice([1, 1, 2])):
+                g = [[rng.random() < 0.5, rng.choice(["a", "b"])] for _ in range(rng.choice([2, 3]))]
+                groups.append(g)
+                if any(t1 == t2 and n1 != n2 for n1, t1 in g for n2, t2 in g):
+                    mon.seen("group_shape", "same_tag_with_both_polarities")
+            dec = decor_random(rng)
+            check_cnf(lab, mon, groups, render(groups, lambda gi, ai: dict(dec(gi, ai), limit=None)))
+        if rng.random() < 0.5:
+            config_kwarg_tags(lab, mon, rng, gv4)
     # v2 renderings under AUTO_DETECT
     trees = T.enum_trees(c07.OPERANDS, 2, 2) if tier == "quick" else T.enum_trees(c07.OPERANDS, 3, 3)
     for i, ast in enumerate(trees):
